@@ -8,7 +8,8 @@ Enumerated completely (no sampling):
   * 2-cut pairs: quick = all pairs inside declared windows (BOS page + start of the header page; the end of the header
     page + a whole audio page; a window around a link boundary of each chain); thorough = ALL pairs of the smallest file
   * request-length schedules (ov_read_float: constants 1,2,3,63,64,65,4096, alternating 1/4096, ramps 1..k..1;
-    ov_read: 1 frame, 3 frames, 7 bytes (not frame aligned), 4096 bytes) x delivery sets (quick: chosen cap set and all
+    ov_read: 1 frame, 3 frames, 7 bytes (not frame aligned), 4096 bytes;
+    ov_read_filter with a stateless gain-0.5 filter and with an identity filter: 64 bytes, 1 frame, 1000, 4096, alternating 64/4096 and 4/1000) x delivery sets (quick: chosen cap set and all
     1-cuts of the smallest file and around the link boundaries; thorough: full product with all caps and all 1-cuts of every file)
   * x access path: vorbisfile seekable / vorbisfile streaming (seek_func NULL) / packet API via a raw libogg loop.
 Oracle: per link bit-identical floats to the packet-API decode with full reads, link order, channel count/rate, no
@@ -22,14 +23,22 @@ CAPS_ALL = list(range(1, 2049)) + [4096, 65536]
 CAPS_SMALL = [0, 1, 2, 3, 5, 17, 64, 255, 256, 257, 1000, 2047, 2048, 4096]
 REQ_F = ['c1', 'c2', 'c3', 'c63', 'c64', 'c65', 'c4096', 'a1,4096', 'r5', 'r70', 'r600']
 REQ_I = ['F1', 'F3', 'b7', 'b4096']          # F<k>: k frames of the widest link; b7: not a multiple of the frame size
+# ov_read_filter (api g: stateless gain 0.5, api k: identity; both check their input against the reference and count frames)
+REQ_G = ['b64', 'F1', 'b1000', 'b4096', 'a64,4096', 'a4,1000']
+REQ_G_ROWS_QUICK = ['b64', 'F1', 'a64,4096']   # quick: subset used in the (request schedule x every 1-cut) rows, api g only
+API_NAME = {'f': 'ov_read_float', 'i': 'ov_read', 'g': 'ov_read_filter(gain 0.5)', 'k': 'ov_read_filter(identity)'}
 PATHS = ['s', 'n', 'p']
 ROWCHUNK = 256
 
 
-def combos():
+def combos(rows_quick=False):
     """(path, api, req) combinations of access path and request-length schedule"""
     out = [(p, 'f', r) for p in PATHS for r in REQ_F]
     out += [(p, 'i', r) for p in ('s', 'n') for r in REQ_I]
+    if rows_quick:
+        out += [(p, 'g', r) for p in ('s', 'n') for r in REQ_G_ROWS_QUICK]
+    else:
+        out += [(p, a, r) for p in ('s', 'n') for a in ('g', 'k') for r in REQ_G]
     return out
 
 
@@ -201,7 +210,7 @@ class Runner:
                 key = classify(fname, nl, path, api, devclass, st, fl)
                 self.viol_counts[key] = self.viol_counts.get(key, 0) + (int(fl['rowbad']) if row else 1)
                 what = {'s': 'vorbisfile seekable', 'n': 'vorbisfile streaming (seek_func NULL)', 'p': 'packet API (libogg loop)'}[path]
-                self.chk.violation(key, f'{fname} ({nl} link{"s" if nl > 1 else ""}) via {what}, {"ov_read" if api == "i" else "ov_read_float"} lengths {req}, case "{single}": {st} neg={fl.get("neg", "?")} {fl.get("raw", "")}'[:400],
+                self.chk.violation(key, f'{fname} ({nl} link{"s" if nl > 1 else ""}) via {what}, {API_NAME.get(api, api)} lengths {req}, case "{single}": {st} neg={fl.get("neg", "?")} {fl.get("raw", "")}'[:400],
                                    {'case': single, 'phase': phase})
         if len(self.samples) < 40:
             self.samples += [cases[0], cases[len(cases) // 2], cases[-1]]
@@ -265,7 +274,7 @@ def run(tier):
         return cases
 
     # ---- phase 0: default schedule, every path / api (anchors the whole comparison)
-    c0 = [R.case(f, p, a, 'c4096' if a == 'f' else 'b4096', 0, []) for f in files for (p, a) in (('s', 'f'), ('n', 'f'), ('p', 'f'), ('s', 'i'), ('n', 'i'))]
+    c0 = [R.case(f, p, a, 'c4096' if a == 'f' else 'b4096', 0, []) for f in files for (p, a) in (('s', 'f'), ('n', 'f'), ('p', 'f'), ('s', 'i'), ('n', 'i'), ('s', 'g'), ('n', 'g'), ('s', 'k'), ('n', 'k'))]
     phase('default', 'default', c0, 'd', 1000)
 
     # ---- phase 1: every uniform cap x path x file (default request length)
@@ -317,11 +326,11 @@ def run(tier):
 
     # ---- phase 4: request-length schedules x every 1-cut of the smallest file, and x the link-boundary neighbourhoods of the chains
     c3b = []
-    for (p, a, q) in combos():
+    for (p, a, q) in combos(not thorough):
         c3b += rows(R, 'S', p, a, q, 0, [], 1, files['S']['len'])
     for f in ('S2', 'F2'):
         for bnd in files[f]['bounds'][1:]:
-            for (p, a, q) in combos():
+            for (p, a, q) in combos(not thorough):
                 c3b += rows(R, f, p, a, q, 0, [], bnd - 40, bnd + 70)
     phase('req_x_cut1', 'req', c3b, 'q', 200)
 
@@ -396,7 +405,7 @@ def run(tier):
         'distinct_nontrivial': len(R.logs) + R.rowD,
         'rule': 'DEV enumeration of read-callback answers: default = full answer; deviations = uniform cap c (every c in 1..2048, 4096, 65536) or cuts (read stops at absolute offset b; every b in 1..len-1; '
                 '2-cut pairs: all pairs inside the listed windows' + (' and ALL pairs b1<b2 of file S' if thorough else '') + ') x access path {seekable vorbisfile, streaming vorbisfile, packet API} x request-length schedules '
-                f'(ov_read_float {REQ_F}, ov_read {REQ_I}); files F1 (1 link), F2 (3 links 1ch/2ch/1ch, 8k/11.025k/44.1k), S2 (2 links 1ch/2ch), S (1 link, smallest), BIG (1 link > 64 KiB: caps, and 1-cuts only around the landing point of the open-time backward hop, seekable path). '
+                f'(ov_read_float {REQ_F}, ov_read {REQ_I}, ov_read_filter with a gain-0.5 / an identity filter {REQ_G} [bytes]); files F1 (1 link), F2 (3 links 1ch/2ch/1ch, 8k/11.025k/44.1k), S2 (2 links 1ch/2ch), S (1 link, smallest), BIG (1 link > 64 KiB: caps, and 1-cuts only around the landing point of the open-time backward hop, seekable path). '
                 'distinct_nontrivial = number of distinct (file, path, api, request schedule, hash of the complete callback log) among single cases in which a deviation actually shortened a read, '
                 'plus, for row cases (one execution per value of the last cut), the number of distinct callback logs within each row among executions where every cut shortened a read (rows differ in file/path/schedule/first cut)',
         'samples': [{'case': s, 'format': '<file> <path s|n|p> <api f|i> <request schedule> <cap> <ncut> <cuts..>'} for s in R.samples[:12]],
@@ -408,6 +417,8 @@ def run(tier):
         'reference = packet-level decode (libogg + vorbis_synthesis) of the same library with full 4096-byte reads, checked against construction ground truth (channels, rate, sample count per link)',
         'streaming mode: the *bitstream index is only required to be constant inside a link and to change at a link boundary; seekable mode: equal to the link number',
         'ov_read integer output is only compared across schedules/modes (anchor: seekable, full reads, 4096 bytes); exact packing is C17',
+        'ov_read_filter: the filter must be shown exactly the unfiltered reference PCM, every frame once (frames shown == frames delivered at end of stream); '
+        'bytes delivered with the gain filter are compared across schedules with an anchor taken with a 131072-byte buffer (a whole block always fits) that is tied to 0.5*reference within one LSB',
         'request lengths start at 1 sample / one frame of the widest link: ov_read with less than one frame returns OV_EINVAL by documentation, ov_read_float(0) is indistinguishable from EOF',
         'path p asks 4096 bytes per read (decoder_example.c); vorbisfile asks READSIZE=2048; caps/cuts apply to both',
         'S2/S/F1/F2 are encoder-made; headers occupy their own pages as the encoder (and the Vorbis I spec) lays them out',
